@@ -16,7 +16,7 @@ TV = "translation_validation"
 
 CLAIMS = {
     "C01": dict(level=PV, ref="§7 C01, §12.1",
-        text="74 kernel-checked theorems (25 in Properties/C01, 49 in Properties/C01Ext), none open, about a hand-written executable model of Metadata.__lt__, "
+        text="74 kernel-checked theorems (39 in Properties/C01, 38 in Properties/C01Ext), none open, about a hand-written executable model of Metadata.__lt__, "
              "Cell.__lt__, IncrementalCell.__lt__, the Triangle constructor and the public operations: strict total "
              "order on canonical metadata, sortedness, permutation, input-order independence for EVERY permutation "
              "(ofCells_perm_invariant, ofCells_coords_perm_invariant), contiguity and order of slices, and closure of "
@@ -27,7 +27,7 @@ CLAIMS = {
              "| & - ^, sum, t[i], loose_period_merge, shift_origin, drop_off_diagonals, TriangleSlice conversions, "
              "make_pred_triangle_with_init, weight_geometric_decay, the Berquist-Sherman adjustments, disaggregate_development, "
              "disaggregate, and the wide / long / array-frame / Matrix reader-after-writer composites; fromWideRows_canonical etc.: "
-             "EVERY accepted table yields a canonical triangle), and run4_canonical over 70 (adding the statics / full array-frame / "
+             "EVERY accepted table yields a canonical triangle), and run4_canonical over 69 (adding the statics / full array-frame / "
              "array_triangle_builder readers, the rich-matrix and triangle_to_matrix-with-options round trips, __getitem__ with any index "
              "object on Triangle and TriangleSlice, make_pred_triangle(_complement), and the BINARY round trip through a Cell<->RawCell "
              "bridge with an exact IEEE-754 encoder: fromBinary_canonical holds for every byte string the reader accepts) - the 34 being (to_incremental, to_cumulative, aggregate, summarize, merge, coalesce, "
@@ -38,12 +38,12 @@ CLAIMS = {
              "tables_order over regenerated definitions) and by a differential correspondence: constructor under "
              "permutations x list/tuple/generator, sorted(metadata) and the < matrix, random chains over the modelled "
              "operations compared with the compiled model, and the Lean Spec predicate evaluated on the "
-             "implementation's output after each step of chains over ~30 public operations (incl. the ones without a "
-             "model: derive_* with functions, period merges, duplicates).",
+             "implementation's output after each step of chains over ~30 public operations (incl. inputs outside the "
+             "models' domains: duplicate coordinates, Err.other cases).",
         note=COMMON_NOTE + "Operations without a Triangle->Triangle model (derive_fields/derive_metadata/replace with "
              "function arguments, frame/CSV/binary readers) are covered by the Spec predicate on implementation "
              "outputs only."
-             " Audit follow-up: closure over 69 modelled operations (Op 10 + Op2 24 + Op3 25 + Op4 10; run4_canonical, with run4_slices_contiguous / run4_slice_order: contiguity and slice order are re-established for every chain result modulo Python's == on metadata). The Spec verdicts evaluated on implementation dumps are EQUIVALENT to the propositions (isCanonical_iff, sliceOrder_sound, contiguous_of_sliceOrder). Order laws of Metadata.__lt__ are claimed where the code has an order: metadata whose shared detail / loss-detail keys carry values of one kind (bool/int/float one kind, None its own); there Python's < equals the model's comparison and raises TypeError only outside (Metadata.cmp?, metadata_cmpPy_eq, metadata_cmpPy_error, metadata_ltPy_trichotomous; checked pair by pair in stream ii-b). The constructor's TypeError for incomparable detail values is not modelled (which pairs Timsort compares depends on input order): constructor theorems are claimed for pairwise comparable cell lists (ofCells_ok_iff_comparable). Where a model answers Err.other (tabular row domain, ndarray arithmetic inside Fn.Ex, inf/nan, make_pred_triangle resolutions <= 0, disaggregate_experience on incremental triangles) the closure theorem is silent and the chain is counted as outside-model. Spec-only: chain-ladder round trip (external package), convert_to_dollars, S3 paths; the iterable type (list / tuple / generator) is correspondence only. The earlier sentence that function-argument operations and readers are Spec-only is superseded: they are under run4_canonical.",
+             " Audit follow-up: closure over 69 modelled operations (Op 10 + Op2 24 + Op3 25 + Op4 10; run4_canonical, with run4_slices_contiguous / run4_slice_order: contiguity and slice order are re-established for every chain result modulo Python's == on metadata). The isCanonical verdict evaluated on implementation dumps is EQUIVALENT to the proposition (isCanonical_iff); a true sliceOrder verdict IMPLIES slice order and contiguity (sliceOrder_sound, contiguous_of_sliceOrder; converse sliceOrder_of_canonical under canonical metadata). The closure theorems assume that the chain returns and that operands contributing cells are themselves canonical triangles (argsCanonical); ofCells_perm_invariant needs cells sharing a coordinate to be identical (with duplicate coordinates the coordinate sequence is still order-independent: ofCells_coords_perm_invariant, canonical metadata). Order laws of Metadata.__lt__ are claimed where the code has an order: metadata whose shared detail / loss-detail keys carry values of one kind (bool/int/float one kind, None its own); there Python's < equals the model's comparison and raises TypeError only outside (Metadata.cmp?, metadata_cmpPy_eq, metadata_cmpPy_error, metadata_ltPy_trichotomous for canonical metadata; checked pair by pair in stream ii-b). The constructor's TypeError for incomparable detail values is not modelled (which pairs Timsort compares depends on input order): constructor theorems are claimed for pairwise comparable cell lists (ofCells_ok_iff_comparable records that domain as a hypothesis: a scoping statement, not a proof that sorted() cannot raise). Where a model answers Err.other (tabular row domain, ndarray arithmetic inside Fn.Ex, inf/nan, make_pred_triangle resolutions <= 0, disaggregate_experience on incremental triangles) the closure theorem is silent and the chain is counted as outside-model. Spec-only: chain-ladder round trip (external package), convert_to_dollars, S3 paths; the iterable type (list / tuple / generator) is correspondence only. The earlier sentence that function-argument operations and readers are Spec-only is superseded: they are under run4_canonical.",
         tech="Lean 4 proof (order laws by compareLex structure, uniqueness of stable sort, induction over op lists) + "
              "probed tables + differential correspondence with compiled Lean model"),
     "C02": dict(level=PV, ref="§7 C02",
@@ -70,7 +70,7 @@ CLAIMS = {
              "Python function body (alloc / bind / load / store / augmented assignment in place on containers / mutating method calls / "
              "calls through computed summaries / loops and branches driven by an oracle), an executable total semantics on the heap model, "
              "and a decidable static discipline (abstract interpretation: every store, in-place update or mutating call targets an object "
-             "allocated in this call, or the object of an UNPROTECTED data-frame parameter). frame_protected / frame_of_discipline prove ONCE "
+             "allocated in this call, or the object of an UNPROTECTED data-frame parameter). frame_protected (objects handed to unprotected parameters live in the entry heap) / frame_of_discipline (no unprotected parameter) prove ONCE "
              "that a disciplined function leaves every location allocated before the call - except the objects handed to unprotected "
              "parameters - unchanged, for all heaps, arguments, oracle choices, call depths, whether it returns or raises; "
              "frame_protected_reachable: with `separated` (protected and unprotected arguments not aliased at entry, checked by object "
@@ -78,12 +78,12 @@ CLAIMS = {
              "arguments; frame_chain_ir: every position in a chain. harness/translate_c03ir.py translates ALL of bermuda/**/*.py "
              "(464 functions, none untranslated; 461 disciplined, the other 3 are mutators by contract - Matrix.__setitem__, "
              "_BodyRawIO.readinto, _open_s3_stream - excluded by name: mutators_excluded) and Lean re-proves all_disciplined by "
-             "decide +kernel over the regenerated program on every run. frame_registry_entry_points covers ALL 168 operations of the "
-             "harness registry (registryOps regenerated from harness/c03.py; registry_all_covered). Negative controls by decide +kernel "
+             "decide +kernel over the regenerated program on every run. frame_registry_entry_points covers ALL 178 operations of the "
+             "harness registry (registryOps regenerated from harness/c03.py; registry_all_covered is rfl on the generated list of uncovered operations, i.e. the translator's own verdict; the theorem speaks about the entry functions the table ENTRY_POINTS names). Negative controls by decide +kernel "
              "(total = values[0]; total += v / values = cell.values; values[k] = v / .update on a parameter dict / mutated default list / "
              ".sort() on cells / a write through what a data frame holds into a Metadata's details) are rejected by the discipline AND "
-             "shown to mutate concretely. (2) the earlier hand-written heap models of 17 accumulating helpers with AST-regenerated "
-             "accumulator patterns (frame_<fn>, all_patterns_fresh). (3) Correspondence: the registry of 168 public operations x "
+             "shown to mutate concretely. (2) the earlier hand-written heap models of 17 helpers (5 accumulating + 12 cell-level; 16 parameterised by an AST-regenerated pattern) with AST-regenerated "
+             "accumulator patterns (frame_<fn>, all_patterns_fresh). (3) Correspondence: the registry of 178 public operations x "
              "argument shapes (incl. mixed value kinds, >= 1000 samples) x chain positions, deep fingerprints (class, dates, metadata incl. "
              "dict order, key order, value type, dtype, shape, raw bytes) of every argument before and after each call whether it returned "
              "or raised, and a second run with every argument array read-only; a discipline failure starts a call-graph-seeded search "
@@ -100,15 +100,15 @@ CLAIMS = {
         text="14 kernel-checked theorems, none open, about the model of to_incremental / to_cumulative: toCum_toInc (exact round trip "
              "for every well-formed cumulative triangle: order, dates, metadata, key sets, values and value kinds (key ORDER is preserved in the model only: the implementation builds the dict from a Python set and the harness ignores key order); "
              "Cell becomes CumulativeCell), toInc_toCum (every complete incremental triangle), identity on the target "
-             "basis, TriangleError on a broken chain and on key mismatch in either direction, toInc_row_spec "
-             "(one increment per evaluation date per row, produced by the row function). toInc_row_spec (bridge to the lookup-based Bool Spec); none open. Correspondence: "
+             "basis, TriangleError on a broken chain (consistent incremental triangle with valid previous dates) and on a key mismatch between consecutive cells of a row in either direction (triangle otherwise well-formed), toInc_row_spec "
+             "(for a WFcum triangle with distinct dict keys to_incremental succeeds and the lookup-based Bool predicate Spec.toIncRowSpec - one increment per evaluation date per row, linked to the preceding evaluation date, values = differences except earned_premium - holds of its result), toCum_row_spec, toInc_row_spec_of_success, roundTripCum_spec / roundTripInc_spec. Correspondence: "
              "dumps of both conversions incl. value kind and dtype, both round trips cell by cell on the "
              "implementation, Spec.toIncRowSpec (independent predecessor lookup) on its output, refusals for every "
              "one-link-removed / shifted variant.",
         note=COMMON_NOTE + "Hypothesis beyond the statement: each field keeps one kind/dtype/shape along a row (the "
              "quantifier's value classes satisfy it). Exactly representable values only."
-             " Audit follow-up: both key-mismatch refusals have kernel-checked witnesses (exTbadKeys, exUbadKeys); rowKey_eq_iff_python_key: on wire-form metadata the model's row key is Python's (period, metadata) grouping key. Declared: Spec.toCumRowSpec is evaluated on the implementation's output but has no bridge theorem on the model; toInc_row_spec assumes one value kind per field along a row (stronger than 'rows keep one field set'; needed for the exact round trip: a row going from array to scalar does not come back equal)."
-             " Final round (supersedes the 'declared' sentences above): toCum_row_spec (for a complete incremental triangle toCumulative succeeds and Spec.toCumRowSpec holds of its result: the bridge for the clause the driver evaluates on the implementation's to_cumulative output); toInc_row_spec_of_success (clauses 1-3 with NO assumption on value kind, dtype or shape: canonical form, distinct coordinates, one key set per row; witness exMixed_toInc with an int, a float and a float64 array along one row); the strong toInc_row_spec is kept for the exact round trip.",
+             " Audit follow-up: both key-mismatch refusals have kernel-checked witnesses (examples on the defs exTbadKeys, exUbadKeys); rowKey_eq_iff_python_key: on wire-form metadata the model's row key is Python's (period, metadata) grouping key. Declared: Spec.toCumRowSpec is evaluated on the implementation's output but has no bridge theorem on the model; toInc_row_spec assumes one value kind per field along a row (stronger than 'rows keep one field set'; needed for the exact round trip: a row going from array to scalar does not come back equal)."
+             " Final round (supersedes the 'declared' sentences above): toCum_row_spec (for a complete incremental triangle toCumulative succeeds and Spec.toCumRowSpec holds of its result: the bridge for the clause the driver evaluates on the implementation's to_cumulative output); toInc_row_spec_of_success (WHENEVER to_incremental returns, clauses 1-3 hold of the result with NO assumption on value kind, dtype or shape: canonical strict order, non-incremental cells with valid dates, one key set per row, distinct dict keys; success itself is proved under WFcum only; witness exMixed_toInc with an int, a float and a float64 array along one row); the strong toInc_row_spec is kept for the exact round trip.",
         tech="Lean 4 theorems over Q (telescoping by induction on rows, regrouping lemmas) + differential correspondence"),
     "C05": dict(level=PV, ref="§7 C05/C06/C19",
         text="17 kernel-checked theorems, none open, about a byte-level codec model (bit view: ints with Int64 range, "
@@ -140,7 +140,7 @@ CLAIMS = {
              "byte-identically; 42 pinned generated files under corpus/pinned.",
         note=COMMON_NOTE + "Pinned dumps were recorded once from the verified tree."
              " Audit follow-up: the layout is pinned by kernel-checked LITERAL byte vectors written by to_binary of the verified tree (encode_exTriangle_bytes / encodePy_exTriangle_bytes / decode_exTriangle_bytes: 242 bytes with every value kind; plain-Cell and CumulativeCell pairs), by golden_meyers / golden_holey_init_tri / golden_missing_eval / golden_missing_cells (decode bytes = ok recordedCells and encode recordedCells = bytes, decide +kernel; c06.py checks on every run that the Lean literals are the sha-pinned shipped files), by formats_per_function_v1 (which function uses <h and which <H) and pool_content; encode_layout_v1 itself states magic, version and tags only. The decoder written only from the layout comment (notes/probes/independent_trib_decoder.py) runs inside c06.py on every generated file and on the history files. ragged_aq_triangle.trib (31 KB) stays in correspondence only."
-             " Final round: Model/CodecLayout.lean defines decodeLayout STRICTLY from the layout comment (exact lengths, no peek, no silent short read, unknown marker or value tag is an error, no constructor rules - not a mirror of binary_input.py); decodeLayout_encode / decodeLayout_encodePy (it reads everything the encoder writes), decodeLayout_literals, decodeLayout_golden (the four shipped files), a kernel-checked strictness example (a trailing unknown marker is refused by decodeLayout and accepted by decode); Drv/C06 runs decodeLayout on every file the implementation writes.",
+             " Final round: Model/CodecLayout.lean defines decodeLayout STRICTLY from the layout comment (exact lengths, no peek, no silent short read, unknown marker or value tag is an error, no constructor rules - not a mirror of binary_input.py); decodeLayout_encode (wf t -> decodeLayout (encode t) = ok t) / decodeLayout_encodePy (the same for the writer as written, coherent triangles), decodeLayout_literals, decodeLayout_golden (the four shipped files), a kernel-checked strictness example (a trailing unknown marker is refused by decodeLayout and accepted by decode); Drv/C06 runs decodeLayout on every file the implementation writes.",
         tech="Lean 4 proof over regenerated format tables + independent encoder/decoder model + golden-file history"),
     "C19": dict(level=PV, ref="§7 C05/C06/C19",
         text="13 kernel-checked theorems, none open: ten per-class prefix lemmas (on a strict prefix of its encoding a "
@@ -151,8 +151,8 @@ CLAIMS = {
              "compressed files: every truncation must raise.",
         note=COMMON_NOTE + "gzip's behaviour on truncated input is library behaviour: enumerated at every offset, not "
              "proved. BufferedReader.peek/short-read semantics as modelled."
-             " Audit follow-up: decode_prefix_safe_py (the writer as written, under coherent) and fromBinary_prefix_safe (what from_binary returns, including Triangle(cells)); compressed_prefix_refused states the compressed clause relative to the named library fact 'a truncated gzip stream is an error' (false for a multi-member writer, which is why the harness also cuts at every gzip member signature); the prefixes driver op reports wf / coherent / fileIsEncode / fileIsEncodePy and c19.py counts theorem instances (all files of a run). For non-coherent triangles prefix safety with (firstRepr t).take k is not proved; the all-offsets stream uses coherent triangles only."
-             " Final round (supersedes the last sentence above): decode_prefix_safe_firstRepr / spec_prefixSafe_firstRepr - for EVERY well-formed triangle, coherent or not, each strict prefix of the file the writer really writes is refused or decodes to (firstRepr t).take k; the all-offsets stream now includes non-coherent triangles judged by that oracle, and every file of a run is a theorem instance.",
+             " Audit follow-up: decode_prefix_safe_py (the writer as written, under coherent) and fromBinary_prefix_safe (what from_binary returns, including Triangle(cells): coherent triangles whose numeric view is a canonical cell list); compressed_prefix_refused states the compressed clause relative to two named library facts, 'a truncated (single-member) gzip stream is an error' and 'gzip output never begins with the .trib magic' (false for a multi-member writer, which is why the harness also cuts at every gzip member signature); the prefixes driver op reports wf / coherent / fileIsEncode / fileIsEncodePy and c19.py counts theorem instances (all files of a run). For non-coherent triangles prefix safety with (firstRepr t).take k is not proved; the all-offsets stream uses coherent triangles only."
+             " Final round (supersedes the last sentence above): decode_prefix_safe_firstRepr / spec_prefixSafe_firstRepr - for EVERY well-formed triangle, coherent or not, each strict prefix of the file the writer really writes is refused or decodes to (firstRepr t).take k; the all-offsets stream now includes non-coherent triangles judged by that oracle, and every file of a run is a theorem instance (decode level; the Triangle(cells) step of from_binary is proved for coherent triangles).",
         tech="Lean 4 proof (prefix-safety of a parser by per-class lemmas + induction over records) + all-offsets "
              "correspondence"),
     "C07": dict(level=PV, ref="§7 C07",
@@ -181,8 +181,8 @@ CLAIMS = {
              "(closed-form windows, conservation, expectStraddle) on the implementation's output.",
         note=COMMON_NOTE + "Non-month-end origins with month units only in a separate stream compared against the model. "
              "Window disjointness relies on C12 date arithmetic (Spec evaluates the closed form on every output)."
-             " Audit follow-up: the window anchor is tied to the requested origin (anchor_spec_month: the anchor is the last day of month M0 + j*q, strictly before the earliest period start, the next grid point not before it; anchor_spec_day; window_origin_month gives the closed form of every window from period_origin; evalGrid_origin_month: d in grid iff d = origin + k*res and first <= d <= last); aggPeriod_sums_inside_month: an output cell's field equals the sum over EXACTLY the source cells with o.ps <= c.ps, c.pe <= o.pe and the same evaluation date; straddle_iff_triangleError_month / straddle_raises_month (no side hypothesis); aggregate_union_of_slices / aggregate_conserves lift to all slices; spec_windowsOk_month(_all), spec_evalOk_month, spec_expectStraddle_month bridge the Spec. Declared: the closed forms are for month units (for day/week units the anchor, disjointness and the regime-independent theorems are proved); Spec.C08.cover / cellSums / keysOk / conserves are evaluated on every implementation output but have no Bool bridge to the model; conservation with an evaluation resolution given at the same time is not lifted; the TriangleError statement is per slice (an earlier slice's other error can pre-empt it)."
-             " Final round (supersedes the 'declared' sentences above): spec_holds_on_model_month - the WHOLE executable Spec (windowsOk, cover, cellSums, keysOk, conserves) holds on the output of aggregate for month units; spec_holds_on_model_month_eval and the day/week and mixed variants (spec_holds_on_model_day, _day_eval, _month_evalday, _day_evalmonth) incl. conservation when an evaluation resolution is given at the same time; window_origin_day, aggPeriod_sums_inside_day, straddle_iff_triangleError_day, evalGrid_origin_day: the closed forms also for day/week units. Still declared: the theorems are for cumulative (non-incremental) triangles (an incremental one goes through aggregate_incremental_commutes and the C04 conversions); the TriangleError statements are per slice (an earlier slice's other error pre-empts); day/week statements assume dates inside date.min..date.max with one step of room; month units from a non-month-end origin, non-positive quantities and the empty triangle are outside these theorems.",
+             " Audit follow-up: the window anchor is tied to the requested origin (anchor_spec_month: the anchor is the last day of month M0 + j*q, strictly before the earliest period start, the next grid point not before it; anchor_spec_day; window_origin_month gives the closed form of every window from period_origin; evalGrid_origin_month: d in grid iff d = origin + k*res and first <= d <= last); aggPeriod_sums_inside_month: an output cell's field equals the sum over EXACTLY the source cells with o.ps <= c.ps, c.pe <= o.pe and the same evaluation date; straddle_iff_triangleError_month / straddle_raises_month (without the honly hypothesis: positive quantity, valid month-end origin, cells satisfying the constructor's date rules with valid period starts); aggregate_union_of_slices / aggregate_conserves lift to all slices; spec_windowsOk_month(_all), spec_evalOk_month, spec_expectStraddle_month bridge the Spec. Declared: the closed forms are for month units (for day/week units the anchor, disjointness and the regime-independent theorems are proved); Spec.C08.cover / cellSums / keysOk / conserves are evaluated on every implementation output but have no Bool bridge to the model; conservation with an evaluation resolution given at the same time is not lifted; the TriangleError statement is per slice (an earlier slice's other error can pre-empt it)."
+             " Final round (supersedes the 'declared' sentences above): spec_holds_on_model_month - the WHOLE executable Spec (windowsOk, cover, cellSums, keysOk, conserves) holds on the output of aggregate for month units (Spec.C08.holds = those five clauses; evalOk / expectStraddle have their own bridges); spec_holds_on_model_month_eval and the day/week and mixed variants (spec_holds_on_model_day, _day_eval, _month_evalday, _day_evalmonth) incl. conservation when an evaluation resolution is given at the same time; window_origin_day, aggPeriod_sums_inside_day, straddle_iff_triangleError_day, evalGrid_origin_day: the closed forms also for day/week units. Still declared: source cells with valid period starts and period_start <= period_end; with an evaluation resolution the Spec's source is the triangle filtered by the closed-form evaluation grid (class-consistent triangle, valid evaluation dates); the theorems are for cumulative (non-incremental) triangles (an incremental one goes through aggregate_incremental_commutes and the C04 conversions); the TriangleError statements are per slice (an earlier slice's other error pre-empts); day/week statements assume dates inside date.min..date.max with one step of room; month units from a non-month-end origin, non-positive quantities and the empty triangle are outside these theorems.",
         tech="Lean 4 theorems (sum over a partition) + differential correspondence"),
     "C09": dict(level=PV, ref="§7 C09",
         text="25 kernel-checked theorems: the rule table regenerated from /repo by probing each closure is re-proved on "
@@ -195,7 +195,7 @@ CLAIMS = {
              "implementation's output.",
         note=COMMON_NOTE + "exp/log of log_industry_lr are parameters of the model (key binding proved; value compared "
              "in Python with rtol 1e-9)."
-             " Audit follow-up: defect D28 repaired (fix commit; with summarize_premium=False a premium/exposure field takes the value of the FIRST CELL OF THE COORDINATE THAT HAS ONE: no_premium_sum, no_premium_value_existing, spec_nonLossOkStrict without hypothesis; regress seed regress_D28). Known finding D29 (KNOWN-FINDING line for that signature only): the weighted average of a ratio field keeps the weights of cells WITHOUT a value in the denominator (summarize_ratio_spec states exactly that; witness ratio_denominator_counts_valueless_weights). summarize_error_class_exact: the TriangleError class for an unknown field in ANY coordinate group; summarize_wavglog_spec / summarize_log_industry_lr_spec: the exp/log rule's shape for an arbitrary transcendental pair (exp/log themselves outside the model). Accepted reading pinned by a witness: a detail shared by every cell with value None is dropped (shared_none_detail_dropped: None means no value).",
+             " Audit follow-up: defect D28 repaired (fix commit; with summarize_premium=False on a CUMULATIVE triangle a NON_LOSS_METRICS field (premium / exposure and the three reported_loss-weighted ratios) held by some cell of the coordinate takes the value of the FIRST CELL OF THE COORDINATE THAT HAS ONE: no_premium_sum, no_premium_value_existing, spec_nonLossOkStrict; regress seed regress_D28). Known finding D29 (KNOWN-FINDING line for that signature only): the weighted average of a ratio field keeps the weights of cells WITHOUT a value in the denominator (summarize_ratio_spec states exactly that; witness ratio_denominator_counts_valueless_weights). summarize_error_class_exact: with consistent metadata summarize raises class e IFF the first failing coordinate group raises e, hence summarize_error_unknown_field_class_any / _of_erased: TriangleError for an unknown field in ANY coordinate group provided every earlier group summarizes (the refusal itself is unconditional: summarize_error_unknown_field); summarize_wavglog_spec / summarize_log_industry_lr_spec: the exp/log rule's shape for an arbitrary transcendental pair (exp/log themselves outside the model). Accepted reading pinned by a witness: a detail shared by every cell with value None is dropped (shared_none_detail_dropped: None means no value).",
         tech="Lean 4 theorems over regenerated rule tables (decide +kernel) and over Q + differential correspondence"),
     "C11": dict(level=PV, ref="§7 C11",
         text="85 kernel-checked theorems, none open, about clip (six inclusive bounds incl. development lag in "
@@ -276,9 +276,9 @@ CLAIMS = {
              "differ only in column names loaded in one process; chainladder round trip Spec-only (third-party).",
         note=COMMON_NOTE + "pandas (dtype inference, NaN handling, date parsing, float formatting) is the trusted/opaque "
              "layer; size-1/0-d arrays are canonicalised to their scalar as the property states 'numeric values as floats'."
-             " Audit follow-up: row counts are restated independently of the writer (scenarioCount of a cell = 1 for scalars, S for S-sample cells; rows_count_wide_scenarios / rows_count_long_scenarios give the one-to-one correspondence rows <-> (cell, scenario[, field])); matrixIndex_total removes the index as a hypothesis (fromMatrix_toMatrix_default, fromRich_toRich_default: semi-regular, two evaluation months, one inferred resolution divides the other); every domain predicate has an inhabitant (wflong_example, wfwideIncr_example, wflongIncr_example, exQ_matrix_example). Declared: from_long_data_frame with non-empty loss_detail_cols is modelled and checked by the correspondence but has no theorem (the proved long round trip is the from_long_csv call, where loss details come back as details); no corollary of fromWide_toWide for inferred detail_cols / field_cols (inference modelled and differential-checked only); the array-frame round trip is proved for one-field triangles, for several fields the pieces (fromArrayFrame_args, arrayBuilder_spec, C10 merge theorems) are proved but not composed."
-             " Final round: fromWide_toWide_inferred / fromWide_toWide_incremental_inferred (the from_wide_csv call with detail_cols left out: the reader infers list(set(columns) - CORE_SET - set(field_cols)); inferCols_written), and the wide-form domains only ask the detail / loss-detail column lists to be duplicate-free (the reader sorts detail items itself). Still declared: the multi-field array-frame round trip is not composed (needs Python's int(str(lag)) = lag and a permutation argument over C10's join pairs); the long form read back with non-empty loss_detail_cols and the wide form with field_cols=None are modelled and differential-checked only."
-             " Last round: fromWide_toWide_fieldsPerm (handed any permutation of the triangle's fields as field_cols the wide reader returns the triangle) and fromWide_toWide_fieldsInferred (field_cols=None: the inferred list is a permutation of the fields, inferFields_written) - cumulative triangles; the incremental analogue is not done.",
+             " Audit follow-up: row counts are restated independently of the writer (scenarioCount of a cell = 1 for scalars, S for S-sample cells; rows_count_wide_scenarios / rows_count_long_scenarios give the one-to-one correspondence rows <-> (cell, scenario[, field])); matrixIndex_total removes the index as a hypothesis (fromMatrix_toMatrix_default, fromRich_toRich_default: semi-regular, two evaluation months, one inferred resolution divides the other); every domain predicate has an inhabitant (wflong_example, wfwideIncr_example, wflongIncr_example, exQ_matrix_example). Declared: from_long_data_frame with non-empty loss_detail_cols is modelled and checked by the correspondence but has no theorem (the proved long round trip is the from_long_csv call, where loss details come back as details); the array-frame round trip is proved for one-field triangles, for several fields the pieces (fromArrayFrame_args, arrayBuilder_spec, C10 merge theorems) are proved but not composed."
+             " Final round: fromWide_toWide_inferred / fromWide_toWide_incremental_inferred (the from_wide_csv call with detail_cols left out, field_cols and loss_detail_cols given, every declared detail column occurring in some cell's metadata: the reader infers list(set(columns) - CORE_SET - set(field_cols)); inferCols_written), and the wide-form domains only ask the detail / loss-detail column lists to be duplicate-free (the reader sorts detail items itself). Still declared: the multi-field array-frame round trip is not composed (needs Python's int(str(lag)) = lag and a permutation argument over C10's join pairs); the long form read back with non-empty loss_detail_cols is modelled and differential-checked only (field_cols=None: see the last round)."
+             " Last round (cumulative triangles; field_cols=None AND detail_cols=None together, and the incremental analogue, are not done): fromWide_toWide_fieldsPerm (handed any permutation of the triangle's fields as field_cols the wide reader returns the triangle) and fromWide_toWide_fieldsInferred (field_cols=None: the inferred list is a permutation of the fields, inferFields_written) - cumulative triangles; the incremental analogue is not done.",
         tech="Lean 4 theorems over regenerated group-by tables + row-model differential correspondence"),
     "C15": dict(level=PV, ref="§7 C15",
         text="42 kernel-checked theorems for both bases, none open: rightTri_lags_exact, rightTri_metadata, rightTri_values_empty, "
@@ -298,8 +298,8 @@ CLAIMS = {
              "an explicit eval_resolution passed to fill_forward_gaps must divide the row's lag differences; backfill has no "
              "per-slice completeness clause (see DESIGN §12.2)."
              " Audit follow-up: make_right_diagonal(include_historic=True) is an explicit opt-in to historic dates and outside the clause 'never create a cell at an occupied coordinate': it places an empty cell at every requested date >= period start, also on observed coordinates (rightDiag_historic_recreates, rightDiag_historic_witness); for this flag the proved and checked clause set is rightDiagHistSpec (extensionSpec_model_rightDiag_historic: onGrid, complete, nodup, valuesEmpty, basis, chain, canonical). The Bool bridge extensionSpec_model_rightTri is proved for the month unit; for dev_lag_unit='day' the Prop-level theorems are unit-generic and the executable clauses onGrid / complete / nodup / emptyWhenComplete are checked on the implementation's output and by model = implementation only; 'timedelta' can only succeed when nothing is added. Success (.ok) is proved as totality for the right-hand operators on cumulative input and for backfill (rightDiag_total, rightTri_total, backfill_total') and as closed instances with the whole Spec in the conclusion for all four operators (exCells_rightTri_ok, exCells_rightDiag_ok, exFill_fill_ok, exBack_backfill_ok); no totality lemma for fill_forward_gaps or the incremental path. backfill fills only the lowest-metadata slice of each period (backfill_only_first_slice)."
-             " Final round: extensionSpec_model_rightTri_day (all ten clauses of the right-triangle Spec for dev_lag_unit='day', both bases; closed instance exCells_rightTri_day_ok) supersedes the month-only restriction stated above; fill_total (fill_forward_gaps returns and the whole Spec holds on SpecDomain with a compatible resolution, given that no constructor call raises - MonthAligned does not bound the year from above; exFill_total). Still declared: success of the right-hand operators on IncrementalCell input additionally needs to_cumulative, to_incremental and _fix_prev_evaluation_date to return, which is exercised by the correspondence but not proved; 'timedelta' is compared model = implementation only."
-             " Last round: rightDiag_total_incremental / rightTri_total_incremental (success on a Complete incremental triangle with canonical metadata, distinct requested dates / integer distinct lags, month unit, given that no constructor call raises; closed instances exU_rightDiag_ok, exU_rightTri_ok) supersede the sentence above about IncrementalCell input for the month unit; still declared for incremental input: include_historic=True (a historic date at or before the observed right edge makes the re-linked cell invalid and the library raises) and the day unit.",
+             " Final round: extensionSpec_model_rightTri_day (all ten clauses of the right-triangle Spec for dev_lag_unit='day', both bases, for valid dates, integer lags and target dates inside date.min..date.max; closed instance exCells_rightTri_day_ok) supersedes the month-only restriction stated above; fill_total (fill_forward_gaps returns and the whole Spec holds on SpecDomain with a compatible resolution, given that no constructor call raises - MonthAligned does not bound the year from above; exFill_total). Still declared: success of the right-hand operators on IncrementalCell input additionally needs to_cumulative, to_incremental and _fix_prev_evaluation_date to return, which is exercised by the correspondence but not proved; 'timedelta' is compared model = implementation only."
+             " Last round: rightDiag_total_incremental / rightTri_total_incremental (success only - no Spec in the conclusion, include_historic=False - on a Complete incremental triangle with canonical metadata, distinct requested dates / integer distinct lags, month unit, given that no constructor call raises; closed instances exU_rightDiag_ok, exU_rightTri_ok) supersede the sentence above about IncrementalCell input for the month unit; still declared for incremental input: include_historic=True (a historic date at or before the observed right edge makes the re-linked cell invalid and the library raises) and the day unit.",
         tech="Lean 4 proof (membership/structure of added cells, sorted-permutation uniqueness for the list equations) + Spec predicates on implementation outputs"),
     "C10": dict(level=PV, ref="§7 C10",
         text="82 kernel-checked theorems, none open, about the model of join (six types, with and without `on`), merge, coalesce, "
@@ -312,7 +312,7 @@ CLAIMS = {
              "subset plus random larger pairs, with the Lean Spec predicates on the implementation's outputs.",
         note=COMMON_NOTE + "Hypotheses: distinct join keys inside each operand and distinct dict keys (as Python dict "
              "building assumes); duplicates are a separate stream compared with the model only."
-             " Audit follow-up: 52 property theorems + 8 witness theorems (39 generic helpers moved to Lemmas/JoinHelpers.lean). join_pairs_last(_max, _own_order): which cell a join pair carries WITHOUT a distinct-keys hypothesis (the last cell of the re-sorted reduced operand), with Spec predicates joinSpecLast / mergeSpecLast so every join and merge case gets a verdict (also when slices collapse under `on`); coalesceSpec runs on every case. Accepted reading pinned by a witness: coalesce's coordinate ignores prev_evaluation_date (coalesce_ignores_prev: two incremental cells differing only in prev -> one is dropped; merge.py:195).",
+             " Audit follow-up: 52 property theorems + 8 witness theorems (generic helpers live in Lemmas/JoinHelpers.lean). join_pairs_last(_max, _own_order): which cell a join pair carries WITHOUT a distinct-keys hypothesis (the last cell of the re-sorted reduced operand), with Spec predicates joinSpecLast / mergeSpecLast so every join and merge case gets a verdict (also when slices collapse under `on`); coalesceSpec runs on every case. Accepted reading pinned by a witness: coalesce's coordinate ignores prev_evaluation_date (coalesce_ignores_prev: two incremental cells differing only in prev -> one is dropped; merge.py:195).",
         tech="Lean 4 proof on a relational model + exhaustive small-universe differential correspondence"),
     "C16": dict(level=PV, ref="§7 C16",
         text="PARTIAL (the statistical clause 'follows the weights' and numpy's RNG are outside the model; everything structural and algebraic is proved). 29 kernel-checked theorems, none open, about the model of blend: linear_value (out = sum w_j v_j with scalar "
@@ -335,7 +335,7 @@ CLAIMS = {
              "draw vector; maximum_entropy_ensemble statement by statement (trimmed-mean / explicit limits, interval ends, mean-preserving "
              "shift, searchsorted index, piecewise-linear quantile function, sorted(quantiles), rank re-imposition, guards in code order): "
              "me_index, me_interval_ends, me_quantile_in_interval, me_quantile_mono(_within), me_quantile_not_monotone (why sorted is needed), "
-             "me_output, me_envelope, me_within_limits (the replicate stays inside the given limits exactly when limitsBind holds), "
+             "me_output, me_envelope, me_within_limits (if limitsBind holds the replicate stays inside the given limits; when it does not it can leave them: witness me_exceeds_upper_limit), "
              "me_within_limits_trimmed, me_bootstrap_limits, me_exceeds_upper_limit (kernel-checked witness of known finding D26); the "
              "age-to-age arithmetic (empirical factors, resampling by drawn positions, develop_value: k-th cell = first * product of factors, "
              "chain_identity, bootstrapD_is_bootstrap); moment_match's sampler arguments (mean, population variance, count, gamma_params_match); "
@@ -348,7 +348,7 @@ CLAIMS = {
              "series in the harness/Spec slack only. Numeric-only Python checks: moment_match mean/std bands, lognormal parameters."
              " Audit follow-up: bootstrap-level bridges spec_bootstrap_structure, spec_first_unchanged (develop_first_unchanged lifted through _bootstrap_slice, the tag and sum(boot)), spec_bootstrapD (hypotheses: pairwise distinct coordinates, tag-injective metadata, uniform field names, canonical triangle; satisfiable by a closed example); the value clauses membership / chain / reproduces are evaluated by the driver on implementation and model outputs but have no bridge theorem (Prop form: develop_value, chain_identity, resampledAtas_identity). The probability vector p handed to rng.choice (volume weights incl. eval_date_resolution: ata_weights_probability), the call shape of every RNG call (thin: one choice(n, k, replace=False) with ValidDraw - thin_positions_count; age-to-age: choice(range(m), size=m, p, replace=True) per lag and field with the same p in every replicate) and the moments handed to the sampler are modelled and compared at the RNG interface; only the DISTRIBUTIONS realised by numpy and the lognormal parameters stay outside. me_bootstrap_limits_bind_iff is the exact signature of D26. The maximum-entropy Spec clauses mePermOk / meValueOk / meIntervalsOk and chainOkSlice / weightsOk / momentsOk are differential (they re-run the model's arithmetic); independent clauses: rankOrderOk, rankFixed, meLimitsOk, meEnvelopeOk. No kernel-checked closed instance of bootstrap = ok (mergeSort is not kernel-evaluable; closed instances exist for thin and momentMatch)."
              " Final round: me_centre_width and spec_me_independent restate the maximum-entropy value and interval clauses WITHOUT the model's quantile function (centre +- width/2 of the draw's grid cell floor(u*n); meValueCWOk / meIntervalsCWOk, which together with rankFixed determine the replicate), so those clauses are no longer differential; chain_step_ok / spec_chain_cells: every developed cell satisfies the per-cell chain clause against the developed cell before it. Still declared: chainOkSlice / ataMembershipOk / reproducesSlice = true on the whole bootstrapD output (missing: monotonicity of calculateDevLag in the evaluation date, the Spec's own ratio table, the upper-left-shape argument) - evaluated by the driver on model and implementation outputs in every run."
-             " Last round: dev_lag_strict_mono (the month lag is strictly monotone in the evaluation date, any day of the month) and spec_chain_slice / spec_chain_replicate (chainOkSlice = true for one slice's replicate, i.e. what _bootstrap_slice computes from numpy's index draws; hypothesis RowsByLag - the cells of a period with a smaller lag end with the list predecessor - exhibited on a 2x2 square). Still declared: RowsByLag is not yet derived from 'sorted slice with valid dates'; the lift to the k-th slice inside the summed multi-slice replicate; ataMembershipOk and reproducesSlice.",
+             " Last round (supersedes the 'missing: monotonicity' remark above): dev_lag_strict_mono (the month lag is strictly monotone in the evaluation date, any day of the month) and spec_chain_slice / spec_chain_replicate (chainOkSlice = true for the replicate of ONE slice - all cells one metadata, sorted, distinct coordinates and dict keys, age-to-age method - i.e. what _bootstrap_slice computes from numpy's index draws; hypothesis RowsByLag - the cells of a period with a smaller lag end with the list predecessor - exhibited on a 2x2 square). Still declared: RowsByLag is not yet derived from 'sorted slice with valid dates'; the lift to the k-th slice inside the summed multi-slice replicate; ataMembershipOk and reproducesSlice.",
         tech="Lean 4 theorems over Q on models of the three resamplers with the RNG draws as parameters + Spec predicates on "
              "implementation outputs + differential correspondence"),
     "C18": dict(level=PV, ref="§7 C18",
